@@ -21,6 +21,9 @@
 (* TLC checks that the views agree, that each return form is a bijection   *)
 (* onto its index set and that every length equals the reported counts.    *)
 (***************************************************************************)
+\* The interpretation of every symbol below is a function of the VALUES of the arrays handed to the model, not of their
+\* representation (float or integer dtype): Representations == {"float", "int"} -- replayed by harness/replay_popleaf.py
+\* (representation_checks) for leaf, composed, covariate and reduced models.
 EXTENDS Naturals, Sequences, FiniteSets, TLC, Json, SequencesExt, FiniteSetsExt
 
 CONSTANTS MaxDim, MaxIds
